@@ -138,6 +138,7 @@ func runC11(r *core.Run) int {
 		shared[i] = compileH(i)
 	}
 	timedQuick := map[string]bool{"no timeout": true}
+	var registryWrites atomic.Int64
 	for round := 0; round < nRounds && !r.Stopped(); round++ {
 		G := []int{2, 4, 8, 32}[round%4]
 		procs := []int{1, 2, 4, 16}[(round/4)%4]
@@ -191,6 +192,11 @@ func runC11(r *core.Run) int {
 						}
 						re = private[op.pat]
 					}
+					if k%16 == 5 && g%4 == 0 {
+						// the code-gen engine registry: writers next to the MustCompile readers (private / fresh compiles)
+						regexp2.RegisterEngine(fmt.Sprintf("verif-never-compiled-%d-%d-%d", round, g, k), regexp2.RuntimeEngineData{})
+						registryWrites.Add(1)
+					}
 					current[g].Store(int32(oi) + 1)
 					for o := range current {
 						if o != g {
@@ -238,6 +244,7 @@ func runC11(r *core.Run) int {
 	// race detector reports
 	blocks, files, heads := raceLogBlocks()
 	l.Count("race_report_blocks", int64(blocks))
+	l.Count("engine_registry_writes", registryWrites.Load())
 	if blocks > 0 {
 		sort.Strings(heads)
 		keep := filepath.Join(core.VerifDir(), "replays", "C11")
